@@ -1168,6 +1168,13 @@ pub fn migration_trigger_native(mode: u8) -> u32 {
             assert!(conn.path.remote == home, "a reordered packet from another address moved the connection");
             2
         }
+        3 => {
+            // the same host behind a new port (NAT rebinding) is a new address too
+            let rebound = addr(1, 5544);
+            deliver_short(&mut conn, now, rebound, 11, &[0x01]);
+            assert!(conn.path.remote == rebound, "the server did not follow its peer to the new port");
+            8
+        }
         _ => {
             deliver_short(&mut conn, now, other, 11, &[0x01]);
             assert!(conn.path.remote == other, "the server did not follow its peer to the new address");
